@@ -273,7 +273,9 @@ func runC14Hist(r *fw.Run, h *c14Hist) []string {
 			svc.Shutdown()
 			return lr.viol
 		}
-		L.waitUntil(lifeBound, func() bool { return c.accepted })
+		// (the step may have been taken by the iteration that was still finishing the previous connection: then the
+		// listener is already closed and this connection will never be accepted)
+		L.waitUntil(lifeBound, func() bool { return c.accepted || L.closedReturns > 0 })
 		if c.Accepted() {
 			if cancelled {
 				lr.waitClosed(c, "accepted under a cancelled serving context")
@@ -579,8 +581,12 @@ func runC14(r *fw.Run) {
 		}
 		r.Journal(w, h)
 		var viol []string
+		t0 := time.Now()
 		if p := catch(func() { viol = runC14Hist(r, h) }); p != "" {
 			viol = append(viol, "panic\x00"+p)
+		}
+		if d := time.Since(t0); d > 3*time.Second {
+			r.Note("slow history (%.1fs): %v timeout=%v socketpair=%v late=%v", d.Seconds(), h.Steps, h.Timeout, h.Socketpair, h.Late)
 		}
 		r.Done(w)
 		for _, v := range viol {
@@ -600,6 +606,7 @@ func runC14(r *fw.Run) {
 			r.Sample(h)
 		}
 	})
+	tA := time.Now()
 	// Shutdown before / while the serving call starts
 	for k := 0; k < r.Pick(60, 600); k++ {
 		race := k%3 != 0
@@ -614,17 +621,20 @@ func runC14(r *fw.Run) {
 			break
 		}
 	}
+	r.Note("timing: before-serve part %.1fs", time.Since(tA).Seconds())
 	// (B) real sockets
 	for ci, cf := range []struct {
 		tr     string
 		listen bool
 	}{{"unix", true}, {"unix", false}, {"tcp", true}, {"tcp", false}} {
+		tB := time.Now()
 		if !r.Thorough && ci >= 2 {
 			epochs := 6
 			c14Real(r, cf.tr, cf.listen, epochs, 3, r.Seed+int64(ci))
-			continue
+		} else {
+			c14Real(r, cf.tr, cf.listen, r.Pick(15, 250), 4, r.Seed+int64(ci))
 		}
-		c14Real(r, cf.tr, cf.listen, r.Pick(15, 250), 4, r.Seed+int64(ci))
+		r.Note("timing: real sockets %s listen=%v %.1fs", cf.tr, cf.listen, time.Since(tB).Seconds())
 	}
 }
 
